@@ -43,6 +43,9 @@ TNext == TSetNAC \/ TGamma \/ TComm \/ TGeneric
 TSpec == TInit /\ [][TNext]_tvars
 
 NP == Len(ev.at)
+(* runs of the Gonze-Lee object with all Ewald terms (with_full_terms=True) are judged by their own invariants *)
+Main(rs) == {r \in rs : r.route # "fullterms"}
+Full(rs) == {r \in rs : r.route = "fullterms"}
 FracOfK(j, jp, a, b) == Reduce(K.P[j][jp][a][b] * K.c1, K.c2)
 
 -----------------------------------------------------------------------------
@@ -69,23 +72,23 @@ ConformsNPrim == pc = "gamma" => ev.nprim = wang.N
 
 -----------------------------------------------------------------------------
 (* zone-centre limit *)
-ImplExactProjection == pc \in {"gamma"} => \A r \in ob.runs : r.exact
+ImplExactProjection == pc \in {"gamma"} => \A r \in Main(ob.runs) : r.exact
 (* D(0; n) = D_plain(0) + (4 pi f/V) K(n) / sqrt(m m') *)
 ImplGammaLimit ==
   pc = "gamma" =>
-     \A r \in ob.runs : \A p, pp \in 1..NP : \A a, b \in I3 :
+     \A r \in Main(ob.runs) : \A p, pp \in 1..NP : \A a, b \in I3 :
         r.K[p][pp][a][b] = FracOfK(ev.at[p], ev.at[pp], a, b)
 (* independent of the length of n *)
-ImplHomogeneous == pc = "gamma" => \A r \in ob.runs : r.Klam = r.K
+ImplHomogeneous == pc = "gamma" => \A r \in Main(ob.runs) : r.Klam = r.K
 (* the correction is real symmetric *)
 ImplSymmetric ==
   pc = "gamma" =>
-     \A r \in ob.runs : \A p, pp \in 1..NP : \A a, b \in I3 : r.K[p][pp][a][b] = r.K[pp][p][b][a]
+     \A r \in Main(ob.runs) : \A p, pp \in 1..NP : \A a, b \in I3 : r.K[p][pp][a][b] = r.K[pp][p][b][a]
 (* both methods, both layouts, all routes give the same matrix *)
-ImplRoutesAgree == pc = "gamma" => \A r1, r2 \in ob.runs : r1.K = r2.K
+ImplRoutesAgree == pc = "gamma" => \A r1, r2 \in Main(ob.runs) : r1.K = r2.K
 
 (* commensurate, non-zero: the correction leaves the matrix unchanged *)
-ImplCommensurateNoOp == pc = "comm" => \A r \in ob.runs : r.zero
+ImplCommensurateNoOp == pc = "comm" => \A r \in Main(ob.runs) : r.zero
 (* the images queried are images of the point the machine is at *)
 ConformsCommImage ==
   pc = "comm" =>
@@ -95,7 +98,24 @@ ConformsCommImage ==
                                       r.image = VAddS(y, VScaleS(Det(cfg.S), g))
 (* zero Born charges: no-op everywhere *)
 ImplZeroBornNoOp ==
-  (pc = "generic" /\ \A j \in 1..NAtoms(cr) : IsZeroM(zs.num[j])) => \A r \in ob.runs : r.zero
+  (pc = "generic" /\ \A j \in 1..NAtoms(cr) : IsZeroM(zs.num[j])) => \A r \in Main(ob.runs) : r.zero
+(* the same three claims for the object with all Ewald terms *)
+ImplFullTermsGammaLimit ==
+  pc = "gamma" =>
+     \A r \in Full(ob.runs) :
+        /\ r.exact /\ r.Klam = r.K
+        /\ \A p, pp \in 1..NP : \A a, b \in I3 : r.K[p][pp][a][b] = FracOfK(ev.at[p], ev.at[pp], a, b)
+ImplFullTermsCommensurateNoOp == pc = "comm" => \A r \in Full(ob.runs) : r.zero
+ImplFullTermsZeroBornNoOp ==
+  (pc = "generic" /\ \A j \in 1..NAtoms(cr) : IsZeroM(zs.num[j])) => \A r \in Full(ob.runs) : r.zero
+(* the dipole-dipole term at an arbitrary q against the independent Ewald sum of the harness                *)
+(* (harness/c08_ewald.py: reciprocal + real-space + limiting term of Gonze-Lee Eqs. 71-76, checked to be   *)
+(* independent of the convergence parameter), evaluated with the tensors of THIS specification state:       *)
+(* "recip" - the default object's reciprocal sum equals the reciprocal part for the same parameter,         *)
+(* "full"  - the object with all terms equals the converged sum                                             *)
+ImplDipoleSum == pc = "generic" => \A r \in ob.ew : r.what # "full" => r.ok
+ImplFullTermsDipoleSum == pc = "generic" => \A r \in ob.ew : r.what = "full" => r.ok
+
 (* non-vacuity: with non-zero charges the correction is active at some arbitrary q, on every run *)
 ImplActive ==
   (pc = "ready" /\ ev.gen # {} /\ \E j \in 1..NAtoms(cr) : ~IsZeroM(zs.num[j])) =>
